@@ -57,7 +57,6 @@ func (w *c11writer) Manifest(_ context.Context, previous base.Manifest) (base.Ma
 }
 func (w *c11writer) SetINITVoteproof(context.Context, base.INITVoteproof) error { return nil }
 
-
 func (w *c11writer) SetACCEPTVoteproof(_ context.Context, avp base.ACCEPTVoteproof) error {
 	w.env.mu.Lock()
 	defer w.env.mu.Unlock()
